@@ -1,4 +1,5 @@
 import ALock.Lemmas.Barrier
+import ALock.Atomic.Calls
 
 /-!
 # C09 — Barrier: a generation releases exactly when its n-th waiter arrives
@@ -152,3 +153,12 @@ example :
   decide
 
 end ALock.Barrier
+
+/-! ## Where the notifications are sent (generated site table) -/
+
+namespace ALock.Atomic.Calls
+
+/-- every `listen` / `notify` of `src/barrier.rs`, in source order (generated table) -/
+theorem C09_calls_ok : fileShapes "src/barrier.rs" = barrierExpected := by decide
+
+end ALock.Atomic.Calls
